@@ -294,7 +294,7 @@ example :
 /-! ## the code-path model is such a run
 The memory-level theorems above speak about ANY run whose evaluator calls honour `WaveStep`. `WaveIO.cpuCProp` / `gpuCProp`
 (Model/WaveIO.lean: `WaveSim.c_prop` / `WaveSimCuda.c_prop` as the code has them — nested loops / kernel launches over lanes, the waveform
-evaluator `evWave` reading and writing the lane's column; tied to the real arrays cell by cell by C06 `path-tie`) is one: -/
+evaluator `evWave` reading and writing the lane's column; run by the driver on the raw memory, tables, delays and `simctl` of real `WaveSim` / `WaveSimCuda` objects: C06 clause `path-tie-cprop`, driver `wio-cprop` — the waveform every region READS AS and every accumulator, every lane; cells behind a terminator are not compared, the real evaluator leaves popped entries there) is one: -/
 open KV.WaveIO in
 /-- **a lane of `c_prop` is a propagation in the sense of the memory theorems**: `p` an accepted map record with `c_caps_min ≥ 4`,
     delays ≥ 0, the op / level tables of the run list the rows of `p` in an order certified by `schedOKB` (`hrows`), lane `k < sims`,
